@@ -4,6 +4,8 @@
 // generated; the ending itself is commanded by the harness (or caused by the
 // library's own signal), so the expected status never comes from the library.
 #include "common/fw.hpp"
+
+#include <dirent.h>
 #include "common/harness.hpp"
 #include "common/ledger.hpp"
 #include "common/vtime.hpp"
@@ -29,6 +31,7 @@ struct Op {
 struct Case {
   int ending_kind = 0;     // 0 exit(code), 1 signal, 2 none (only the library's signals end it)
   int code = 0, sig = 0;
+  bool core = false;       // the signal's default action dumps core and the child is allowed to (status flag set)
   int64_t ending_after = 0;  // relative to start
   int term_mode = 0;       // 0 dies on TERM, 1 ignores TERM
   int deadline = 0;
@@ -55,10 +58,12 @@ Case decode(Tape &t, long sweep)
   } else if (sweep >= 256) {
     c.ending_kind = 1;
     c.sig = kTermSignals[(sweep - 256) % 23];
+    c.core = ((sweep - 256) / 23) % 2 == 1;
   } else {
     c.ending_kind = (int) t.weighted({ 4, 3, 3 });
     c.code = (int) t.pick(256);
     c.sig = kTermSignals[t.pick(23)];
+    c.core = t.chance(1, 2);
   }
   c.ending_after = (int64_t) t.range(0, 20000);
   c.term_mode = t.chance(1, 4) ? 1 : 0;
@@ -114,7 +119,7 @@ CaseResult run_case(Tape &t, long sweep)
       else d = o.kind == O_TERMINATE ? "terminate" : "kill";
       jo.push_back(jstr("+" + std::to_string(o.gap) + " " + d));
     }
-    res.describe = J().kv("ending", c.ending_kind == 0 ? "exit(" + std::to_string(c.code) + ")" : c.ending_kind == 1 ? "signal " + std::to_string(c.sig) : "only by the library's signals")
+    res.describe = J().kv("ending", c.ending_kind == 0 ? "exit(" + std::to_string(c.code) + ")" : c.ending_kind == 1 ? "signal " + std::to_string(c.sig) + (c.core ? " (core dump allowed)" : "") : "only by the library's signals")
                        .kv("ending_after", (long long) c.ending_after)
                        .kv("ignores_TERM", c.term_mode == 1)
                        .kv("deadline", c.deadline)
@@ -138,7 +143,7 @@ CaseResult run_case(Tape &t, long sweep)
   } else if (c.ending_kind == 1) {
     self_at = t_start + c.ending_after;
     self_status = 128 + c.sig;
-    w.schedule(self_at, ch.kid, vt::A_RAISE, (uint32_t) c.sig);
+    w.schedule(self_at, ch.kid, vt::A_RAISE, (uint32_t) c.sig, c.core ? 1 : 0);
   }
   int64_t deadline_abs = c.deadline ? t_start + c.deadline : model::T_INF;
   vt::Kid &k = w.kids[(size_t) ch.kid];
@@ -311,11 +316,24 @@ CaseResult run_case(Tape &t, long sweep)
   }
 
   res.nontrivial = calls_after_status > 0 || nonzero_ending;
-  res.hash = mix(h, (uint64_t) c.ending_kind | (uint64_t) c.code << 2 | (uint64_t) c.sig << 10 | (uint64_t) c.term_mode << 16 | (uint64_t) (c.deadline != 0) << 17);
+  res.hash = mix(h, (uint64_t) c.ending_kind | (uint64_t) c.code << 2 | (uint64_t) c.sig << 10 | (uint64_t) c.term_mode << 16 | (uint64_t) (c.deadline != 0) << 17 | (uint64_t) c.core << 18);
   if (calls_after_status > 0) res.cls("call-after-status");
   if (interrupted_calls > 0) res.cls("interrupted-call");
   if (nonzero_ending) res.cls("nonzero-status");
   if (have_status && status > 128 && c.ending_kind == 1) res.cls("ended-by-own-signal");
+  if (have_status && c.ending_kind == 1 && c.core && (c.sig == 3 || c.sig == 4 || c.sig == 5 || c.sig == 6 || c.sig == 7 || c.sig == 8 || c.sig == 11 || c.sig == 24 || c.sig == 25 || c.sig == 31)) {
+    res.cls("ended-by-core-dumping-signal");
+    // did the kernel really write one (depends on the machine's core_pattern and hard limit)?
+    std::string dir = fw::case_dir() + "/ctl";
+    if (DIR *d = opendir(dir.c_str())) {
+      while (struct dirent *e = readdir(d))
+        if (!strncmp(e->d_name, "core", 4)) {
+          res.cls("core-file-written");
+          break;
+        }
+      closedir(d);
+    }
+  }
   if (have_status && (status == 143 || status == 137) && c.ending_kind != 1) res.cls("ended-by-library-signal");
   if (sweep >= 0) {
     res.cls(sweep < 256 ? "sweep-exit-code" : "sweep-signal");
